@@ -170,7 +170,7 @@ class Interp:
                     self.in_defaultref += 1
                     self.defaultref_envs.append(env)
                     try:
-                        out += v()
+                        out += v(top)
                     finally:
                         self.defaultref_envs.pop()
                         self.in_defaultref -= 1
@@ -192,7 +192,7 @@ class Interp:
                     self.in_defaultref += 1
                     self.defaultref_envs.append(env)
                     try:
-                        out += v()
+                        out += v(top)
                     finally:
                         self.defaultref_envs.pop()
                         self.in_defaultref -= 1
@@ -372,8 +372,10 @@ class Interp:
         if slot_stack and slot_stack[-1] == "default":
             self.events["slot_in_default"] += 1
 
-        def render_default():
-            return self.eval(body, env, owner, provs, top, depth, in_fill, slot_stack + ("default",))
+        def render_default(top_at_use=None):
+            # root-ness is structural: default content expanded through the default alias somewhere else lands in the
+            # output of the instances for which THAT place is top-level
+            return self.eval(body, env, owner, provs, top if top_at_use is None else top_at_use, depth, in_fill, slot_stack + ("default",))
 
         if fill_name in fills:
             self.events["slot_filled"] += 1
